@@ -44,6 +44,22 @@ Targets (each regenerated on every run of the checks that use them; the output d
         inside `for i, xi in enumerate(x)`; imports EvalSplineGen / CubicUniformGen; Props/C07Gen4.lean: y[k] = what the generated scalar
         evaluation returns at x[k], k < len(x), nothing beyond)
 
+  the 2-D scalar kernels   (target eval2d)
+        nu_eval_spline_2d_scalar (spline_eval_funcs.py), cu_eval_spline_2d_scalar (cubic_uniform_spline_eval_funcs.py)
+                                    -> lean/PygyroVerif/Generated/Eval2DGen.lean        (`a = empty((n, m))` = a local 2-D array, element (k, l) = word
+        `k*m + l` of `U`; the ONE slice statement `a[:, :] = b[lo1:hi1, lo2:hi2]` with numpy's shape check / broadcasting for in-bounds slices [ValueError
+        otherwise; clipping and negative bounds not modelled]; Props/C07Gen5.lean: generated = Model `evalSpline2D` / `cuEvalSpline2D`, all (der1, der2))
+  pygyro/advection/accelerated_advection_steps.py     (targets lagvals | polimpl)
+        general_get_lagrange_vals   -> lean/PygyroVerif/Generated/LagValsGen.lean       (`int[:]` = `Nat → Int`, read only; `for j, s in enumerate(<int
+        array>)`; `(i - s) % nz` with a natural modulus = Lean's `%` on `Int`, the NON-NEGATIVE remainder = Python's value for nz > 0; `empty_like`; the ONE slice
+        statement `a[:] = (b + s) % c` = the element-wise loop in closed form under numpy's shape check; a function parameter the body never mentions is not
+        translated; Props/C10Gen2.lean: generated = Model/FluxAdv.lean `getLagrangeVals` on the len(qVals) theta indices, untouched elsewhere)
+        general_poloidal_advection_step_impl
+                                    -> lean/PygyroVerif/Generated/PolImplGen.lean       (`from numpy import pi, abs`: `abs(x)` = `pyAbs x`; an `if` whose branches
+        only assign = `let σ := if c then … else …` [the statements after it are NOT copied into the branches]; a `for` whose body only assigns applies
+        `body_of_<loop>` = the composition of `part<k>_of_<loop>`, the body cut at every `if`; `while (norm > tol)` with fuel = number of TESTS;
+        Props/C12Gen2.lean: one pass of the while body = Model/PolAdv.lean `sweep` incl. the norm, the while = `implLoop` (fuel N+1 vs N), the call = `implStep`)
+
 Props/C20Gen.lean and Props/C02Gen.lean prove that the generated definitions equal the hand-written models the other
 theorems are about (so those theorems hold of what the source says *now*).  The translator REFUSES (exit status 3, no Lean
 file left behind) on any construct outside its subset (subtraction on naturals, float functions, unknown calls, other
@@ -773,6 +789,14 @@ class ArrayFuncTranslator(FuncTranslator):
         self.shaped = set()                      # arrays of 2 or more dimensions whose `.shape` the function reads
         self.procedures = False                  # function parameters `()(…)` that write one array, 2-D array arguments, `bool` parameters,
         #                                          `from numpy import pi` in the body, `%` on floats (target polexpl)
+        self.slices = False                      # `a = empty((n, m))`, `a[:, :] = b[lo:hi, lo2:hi2]` (target eval2d), `a[:] = (b + s) % c` (lagvals)
+        self.int_arrays = False                  # `int[:]` parameters (read only), `for j, s in enumerate(<int array>)`, `(i - s) % n` on a possibly
+        #                                          negative integer with a natural-number modulus, `empty_like`, unused function parameters (lagvals)
+        self.unused_params = []                  # function-typed parameters outside the subset that the body never mentions (int_arrays only)
+        self.if_state = False                    # an `if` whose branches only assign (names, array elements; nested such `if`s) is the state
+        #                                          transformer `let σ := if c then … else …`: the statements after it are NOT copied into the branches;
+        #                                          `from numpy import pi, abs`, `abs(x)` of a float = `pyAbs x` (target polimpl)
+        self.tree = None                         # the module (set by kernel_functions)
 
     # ---- typing -----------------------------------------------------------------------------------------------
     def fun_annotation(self, a, ann):
@@ -822,10 +846,13 @@ class ArrayFuncTranslator(FuncTranslator):
             return 'false'
         if types[v] in ARR_TYPES:
             return 'fun %s=> 0' % ('_ ' * ARR_TYPES[types[v]])
+        if types[v] == 'Nat → Int':
+            return 'fun _ => 0'
         return '0'
 
     def infer_types(self, fn):
         types, params, self.final, self.ext, self.shaped = {}, [], set(), {}, set()
+        self.unused_params, self.numpy_empty_like, self.numpy_abs = [], False, False
         # `a.shape` of a parameter array: its extents are extra parameters `a_len0`, `a_len1`, … (1-D: `a_len`, as for `len(a)`)
         shaped = {n.value.id for n in ast.walk(fn) if isinstance(n, ast.Attribute) and n.attr == 'shape' and isinstance(n.value, ast.Name)}
         if self.procedures:
@@ -836,8 +863,23 @@ class ArrayFuncTranslator(FuncTranslator):
                        for x in n.args if isinstance(x, ast.Name)}
             for n in ast.walk(fn):
                 if isinstance(n, (ast.Import, ast.ImportFrom)):
-                    if not (isinstance(n, ast.ImportFrom) and n in fn.body and n.module == 'numpy' and n.level == 0 and len(n.names) == 1
-                            and n.names[0].name == 'pi' and n.names[0].asname is None) or 'pi' in types:
+                    names = [x.name for x in n.names] if isinstance(n, ast.ImportFrom) else []
+                    if self.int_arrays and names == ['pi', 'empty_like'] and n in fn.body and n.module == 'numpy' and n.level == 0 \
+                            and all(x.asname is None for x in n.names) and 'pi' not in types:
+                        # `empty_like` must be numpy's everywhere in the module: every binding of the name is such an import
+                        if self.tree is None or any(not (isinstance(b, ast.ImportFrom) and b.module == 'numpy' and b.level == 0
+                                                         and al.name == 'empty_like') for b, al in module_bindings(self.tree, 'empty_like')):
+                            self.refuse(n, '`empty_like` is not numpy.empty_like everywhere in the module')
+                        self.numpy_empty_like = True
+                    elif self.if_state and names == ['pi', 'abs'] and n in fn.body and n.module == 'numpy' and n.level == 0 \
+                            and all(x.asname is None for x in n.names) and 'pi' not in types:
+                        # `abs` must be numpy's (or the builtin: the same value on a float) everywhere in the module
+                        if self.tree is None or any(not (isinstance(b, ast.ImportFrom) and b.module == 'numpy' and b.level == 0
+                                                         and al.name == 'abs') for b, al in module_bindings(self.tree, 'abs')):
+                            self.refuse(n, '`abs` is re-bound to something that is not numpy.abs somewhere in the module')
+                        self.numpy_abs = True
+                    elif not (isinstance(n, ast.ImportFrom) and n in fn.body and n.module == 'numpy' and n.level == 0 and len(n.names) == 1
+                              and n.names[0].name == 'pi' and n.names[0].asname is None) or 'pi' in types:
                         self.refuse(n, 'import inside the function (only `from numpy import pi`, once, at the top level of the body)')
                     types['pi'] = 'Rat'            # the constant is a leading parameter of `run`
                     params.append('pi')
@@ -880,6 +922,16 @@ class ArrayFuncTranslator(FuncTranslator):
                     self.shaped.add(a.arg)
                 if ann.startswith('Final'):
                     self.final.add(a.arg)
+            elif self.int_arrays and core == 'int[:]':
+                types[a.arg] = 'Nat → Int'         # read only: element assignment is for float arrays
+                types[a.arg + '_len'] = 'Nat'
+                self.final.add(a.arg)
+            elif self.int_arrays and isinstance(ann, str) and ann.startswith('(') and not any(
+                    isinstance(n, ast.Name) and n.id == a.arg for n in ast.walk(fn)):
+                # a function parameter the body never mentions: not translated (no field, no parameter of `run`); the header says so
+                types[a.arg] = 'unused'
+                self.unused_params.append(a.arg)
+                continue
             elif isinstance(ann, str) and self.fun_annotation(a, ann):
                 types[a.arg] = 'ext'
                 self.ext[a.arg] = self.fun_annotation(a, ann)
@@ -907,9 +959,11 @@ class ArrayFuncTranslator(FuncTranslator):
             if isinstance(n, ast.For):
                 if self.is_enumerate(n):
                     vi, vv = n.target.elts[0].id, n.target.elts[1].id
+                    over = n.iter.args[0].id if len(n.iter.args) == 1 and isinstance(n.iter.args[0], ast.Name) else None
+                    vt = 'Int' if types.get(over) == 'Nat → Int' else 'Rat'
                     if vi == vv or vi in params or vv in params or types.setdefault(vi, 'Nat') != 'Nat' \
-                            or types.setdefault(vv, 'Rat') != 'Rat':
-                        self.refuse(n, 'loop variables of enumerate: two fresh names, an integer and a float')
+                            or types.setdefault(vv, vt) != vt:
+                        self.refuse(n, 'loop variables of enumerate: two fresh names, an integer and a %s' % ('float' if vt == 'Rat' else 'second integer'))
                     order += [vi, vv]
                     continue
                 if not isinstance(n.target, ast.Name):
@@ -946,6 +1000,23 @@ class ArrayFuncTranslator(FuncTranslator):
             if not isinstance(tg, ast.Name):
                 self.refuse(n, 'only plain names and array elements may be assigned')
             v = tg.id
+            if isinstance(n, ast.Assign) and self.is_empty_call(n.value) and self.slices and len(n.value.args) == 1 \
+                    and isinstance(n.value.args[0], ast.Tuple) and len(n.value.args[0].elts) == 2:
+                # `a = empty((n, m))`: a local 2-D array; its extents are the locals `a_len0`, `a_len1`
+                if v in types and types[v] != 'Nat → Nat → Rat' or v in params:
+                    self.refuse(n, '%s is both a 2-D array and something else' % v)
+                types[v] = 'Nat → Nat → Rat'
+                types[v + '_len0'] = types[v + '_len1'] = 'Nat'
+                self.shaped.add(v)
+                order += [v, v + '_len0', v + '_len1']
+                continue
+            if isinstance(n, ast.Assign) and self.is_empty_like_call(n.value):
+                if v in types and types[v] != 'Nat → Rat' or v in params:
+                    self.refuse(n, '%s is both an array and something else' % v)
+                types[v] = 'Nat → Rat'
+                types[v + '_len'] = 'Nat'
+                order += [v, v + '_len']
+                continue
             if isinstance(n, ast.Assign) and self.is_empty_call(n.value):
                 if v in types and types[v] != 'Nat → Rat' or v in params:
                     self.refuse(n, '%s is both an array and something else' % v)
@@ -991,7 +1062,7 @@ class ArrayFuncTranslator(FuncTranslator):
                     self.ret_type.append('Int')
                 else:
                     self.ret_type.append('Nat')
-        params = [q for p_ in params for q in ([p_, p_ + '_len'] if types[p_] == 'Nat → Rat' else (
+        params = [q for p_ in params for q in ([p_, p_ + '_len'] if types[p_] in ('Nat → Rat', 'Nat → Int') else (
             [p_] + ['%s_len%d' % (p_, d_) for d_ in range(ARR_TYPES[types[p_]])] if p_ in self.shaped else [p_]))]
         seen, ordered = set(), []
         for v in params + order:
@@ -1021,6 +1092,9 @@ class ArrayFuncTranslator(FuncTranslator):
     def is_empty_call(self, e):
         return isinstance(e, ast.Call) and isinstance(e.func, ast.Name) and e.func.id == 'empty'
 
+    def is_empty_like_call(self, e):
+        return self.int_arrays and isinstance(e, ast.Call) and isinstance(e.func, ast.Name) and e.func.id == 'empty_like'
+
     def is_enumerate(self, n):
         it = n.iter
         return (isinstance(it, ast.Call) and isinstance(it.func, ast.Name) and it.func.id == 'enumerate' and isinstance(n.target, ast.Tuple)
@@ -1037,6 +1111,8 @@ class ArrayFuncTranslator(FuncTranslator):
         if isinstance(e, ast.Call):
             if isinstance(e.func, ast.Name) and e.func.id in ('min', 'max'):
                 return any(self.is_rat(a, types) for a in e.args)
+            if self.if_state and isinstance(e.func, ast.Name) and e.func.id == 'abs' and 'abs' not in types and len(e.args) == 1:
+                return self.is_rat(e.args[0], types)
             if isinstance(e.func, ast.Name) and types.get(e.func.id) == 'ext':
                 return self.ext[e.func.id][1] == 'Rat'
             return isinstance(e.func, ast.Name) and self.sigs.get(e.func.id, (None, None))[1] == 'Rat'
@@ -1052,6 +1128,8 @@ class ArrayFuncTranslator(FuncTranslator):
             return False
         if isinstance(e, ast.Name):
             return types.get(e.id) == 'Int'
+        if isinstance(e, ast.Subscript):
+            return isinstance(e.value, ast.Name) and types.get(e.value.id) == 'Nat → Int'
         if isinstance(e, ast.Call) and isinstance(e.func, ast.Name):
             if e.func.id == 'int' and 'int' not in types:
                 return True
@@ -1094,6 +1172,13 @@ class ArrayFuncTranslator(FuncTranslator):
         if isinstance(e, ast.BinOp) and type(e.op) in (ast.Add, ast.Sub, ast.Mult):
             op = {ast.Add: '+', ast.Sub: '-', ast.Mult: '*'}[type(e.op)]
             return '(%s %s %s)' % (self.expr_int(e.left, types), op, self.expr_int(e.right, types))
+        if isinstance(e, ast.Subscript) and isinstance(e.value, ast.Name) and types.get(e.value.id) == 'Nat → Int':
+            return '(σ.%s %s)' % (e.value.id, self.expr(e.slice, types, 'Nat'))
+        if self.int_arrays and isinstance(e, ast.BinOp) and isinstance(e.op, ast.Mod) and self.is_int(e.left, types) \
+                and not self.is_int(e.right, types) and not self.is_rat(e.right, types):
+            # `a % n` with `a` possibly negative and `n` a natural number: Python's result for n > 0 is the NON-NEGATIVE remainder, which is
+            # Lean's `%` on `Int` (`Int.emod`); n = 0 raises ZeroDivisionError in Python and gives `a` here (the theorems state 0 < n)
+            return '(%s %% %s)' % (self.expr_int(e.left, types), self.expr_int(e.right, types))
         if isinstance(e, ast.BinOp) and type(e.op) in (ast.FloorDiv, ast.Mod) and self.is_int(e, types):
             self.refuse(e, '// or % on an integer that may be negative')
         if isinstance(e, ast.UnaryOp) and isinstance(e.op, ast.USub):
@@ -1145,6 +1230,11 @@ class ArrayFuncTranslator(FuncTranslator):
                 self.refuse(e, '// or % on a float')
             # Python's `a % b` on floats: a - b*floor(a/b) (the sign of the divisor); `pyMod` is defined in the generated file
             return '(pyMod %s %s)' % (self.expr(e.left, types, 'Rat'), self.expr(e.right, types, 'Rat'))
+        if self.if_state and isinstance(e, ast.Call) and isinstance(e.func, ast.Name) and e.func.id == 'abs' and 'abs' not in types:
+            # `abs(x)` of a float (numpy.abs imported in the body; the builtin gives the same value): `pyAbs x`, defined in the generated file
+            if not self.numpy_abs or len(e.args) != 1 or e.keywords or not self.is_rat(e.args[0], types) or want != 'Rat':
+                self.refuse(e, 'abs(x) with one float argument only, after `from numpy import pi, abs` in the body')
+            return '(pyAbs %s)' % self.expr(e.args[0], types, 'Rat')
         if isinstance(e, ast.Call) and isinstance(e.func, ast.Name) and types.get(e.func.id) == 'ext':
             argt, ret = self.ext[e.func.id]
             if ret in ARR_TYPES and want != 'proc':
@@ -1184,6 +1274,92 @@ class ArrayFuncTranslator(FuncTranslator):
         return [self.expr(i, types, 'Nat') for i in idx]
 
     # ---- statements -------------------------------------------------------------------------------------------
+    @staticmethod
+    def has_slice(sub):
+        idx = list(sub.slice.elts) if isinstance(sub.slice, ast.Tuple) else [sub.slice]
+        return any(isinstance(i, ast.Slice) for i in idx)
+
+    def assign_only(self, s, is_known):
+        """an `if` all of whose statements (in both branches, recursively through nested `if`s) are assignments `x = e`, `x op= e`,
+        `a[i, j] = e`, `a[i, j] op= e` or `pass`, none of them from a kernel call or `empty`"""
+        for t in s.body + s.orelse:
+            if isinstance(t, ast.If):
+                if not self.assign_only(t, is_known):
+                    return False
+            elif isinstance(t, ast.Assign):
+                if len(t.targets) != 1 or not isinstance(t.targets[0], (ast.Name, ast.Subscript)) or is_known(t.value) \
+                        or self.is_empty_call(t.value) or self.is_empty_like_call(t.value) \
+                        or (isinstance(t.targets[0], ast.Subscript) and self.has_slice(t.targets[0])):
+                    return False
+            elif isinstance(t, ast.AugAssign):
+                if not isinstance(t.target, (ast.Name, ast.Subscript)):
+                    return False
+            elif not isinstance(t, ast.Pass):
+                return False
+        return True
+
+    def slice_assign(self, s, types, rest, k_end, k_break, ind, fuel):
+        """whole-array assignments (exactly these two shapes; everything else with a slice is refused):
+          `a[:, :] = b[lo1:hi1, lo2:hi2]`   a: local 2-D array of known extents, b: another 2-D array
+          `a[:] = (b + s) % c`              (see slice_assign_1d)"""
+        pad = '  ' * ind
+        tg = s.targets[0]
+        full = lambda i: isinstance(i, ast.Slice) and i.lower is None and i.upper is None and i.step is None  # noqa: E731
+        if not (isinstance(tg.value, ast.Name) and types.get(tg.value.id) in ARR_TYPES):
+            self.refuse(s, 'slice assignment to something that is not a float array')
+        a = tg.value.id
+        if a in self.final:
+            self.refuse(s, 'write to the Final array %s' % a)
+        idx = list(tg.slice.elts) if isinstance(tg.slice, ast.Tuple) else [tg.slice]
+        if not all(full(i) for i in idx) or len(idx) != ARR_TYPES[types[a]]:
+            self.refuse(s, 'slice assignment: only the whole array `%s[%s]` may be the target' % (a, ', '.join(':' * ARR_TYPES[types[a]])))
+        if len(idx) == 1:
+            return self.slice_assign_1d(s, a, types, rest, k_end, k_break, ind, fuel)
+        v = s.value
+        if not (len(idx) == 2 and a in self.shaped and isinstance(v, ast.Subscript) and isinstance(v.value, ast.Name)
+                and types.get(v.value.id) == 'Nat → Nat → Rat' and v.value.id != a and isinstance(v.slice, ast.Tuple)
+                and len(v.slice.elts) == 2
+                and all(isinstance(i, ast.Slice) and i.lower is not None and i.upper is not None and i.step is None for i in v.slice.elts)):
+            self.refuse(s, 'slice assignment: only `a[:, :] = b[lo1:hi1, lo2:hi2]` with a local 2-D array a and another 2-D array b')
+        b = v.value.id
+        los, ns = [], []
+        for sl in v.slice.elts:
+            for e in (sl.lower, sl.upper):
+                if self.is_rat(e, types):
+                    self.refuse(s, 'float in a slice bound')
+            ext = ast.BinOp(left=sl.upper, op=ast.Sub(), right=sl.lower)
+            ast.copy_location(ext, s)
+            los.append(self.expr(sl.lower, types, 'Nat'))
+            ns.append(self.expr(ext, types, 'Nat'))
+        after = self.block(rest, types, k_end, k_break, ind + 1, fuel)
+        return ('%sif ((%s = σ.%s_len0 ∨ %s = 1) ∧ (%s = σ.%s_len1 ∨ %s = 1)) then\n'
+                '%s  let σ : St := { σ with %s := fun k_ l_ => if k_ < σ.%s_len0 ∧ l_ < σ.%s_len1 then '
+                'σ.%s (%s + (if %s = 1 then 0 else k_)) (%s + (if %s = 1 then 0 else l_)) else σ.%s k_ l_ }\n%s\n%selse\n%s  %s'
+                % (pad, ns[0], a, ns[0], ns[1], a, ns[1], pad, a, a, a, b, los[0], ns[0], los[1], ns[1], a, after, pad, pad,
+                   self.wrap('.raised "ValueError"')))
+
+    def slice_assign_1d(self, s, a, types, rest, k_end, k_break, ind, fuel):
+        """`a[:] = (b + s) % c` — a, b 1-D float arrays, s and c float scalars (no array names in them except as `x[i]`).  numpy evaluates the
+        right-hand side into a temporary first (so everything on the right is read in the state BEFORE the statement), checks the shapes
+        (len(b) = len(a), or len(b) = 1: broadcasting; ValueError otherwise) and copies: the element-wise loop
+        `for k in range(len(a)): a[k] = (b[k] + s) % c`, given in closed form"""
+        pad = '  ' * ind
+        v = s.value
+        if not (self.procedures and isinstance(v, ast.BinOp) and isinstance(v.op, ast.Mod) and isinstance(v.left, ast.BinOp)
+                and isinstance(v.left.op, ast.Add) and isinstance(v.left.left, ast.Name) and types.get(v.left.left.id) == 'Nat → Rat'):
+            self.refuse(s, 'slice assignment to a 1-D array: only `a[:] = (b + scalar) % scalar` with a 1-D float array b')
+        b = v.left.left.id
+        for e in (v.left.right, v.right):
+            if not self.is_rat(e, types) or any(isinstance(n, ast.Name) and types.get(n.id) in ARR_TYPES
+                                                  and not any(isinstance(p_, ast.Subscript) and p_.value is n for p_ in ast.walk(e))
+                                                  for n in ast.walk(e)):
+                self.refuse(s, 'slice assignment to a 1-D array: the addend and the modulus must be float scalars')
+        add, mod = self.expr(v.left.right, types, 'Rat'), self.expr(v.right, types, 'Rat')
+        after = self.block(rest, types, k_end, k_break, ind + 1, fuel)
+        return ('%sif (σ.%s_len = σ.%s_len ∨ σ.%s_len = 1) then\n'
+                '%s  let σ : St := { σ with %s := fun k_ => if k_ < σ.%s_len then (pyMod ((σ.%s (if σ.%s_len = 1 then 0 else k_)) + %s) %s) else σ.%s k_ }\n'
+                '%s\n%selse\n%s  %s' % (pad, b, a, b, pad, a, a, b, b, add, mod, a, after, pad, pad, self.wrap('.raised "ValueError"')))
+
     def call_stmt(self, s, c, target, types, rest, k_end, k_break, ind, fuel):
         pad = '  ' * ind
         if c.keywords:
@@ -1193,8 +1369,8 @@ class ArrayFuncTranslator(FuncTranslator):
             self.refuse(s, 'wrong number of arguments')
         args, back = [], []
         for (pn, pt, pfinal), a in zip(sig, c.args):
-            if pt == 'ext' or ARR_TYPES.get(pt, 1) != 1:
-                self.refuse(s, 'call of a kernel with a function or a multi-dimensional array parameter')
+            if pt in ('ext', 'unused', 'Nat → Int') or ARR_TYPES.get(pt, 1) != 1:
+                self.refuse(s, 'call of a kernel with a function, an int array or a multi-dimensional array parameter')
             if pt == 'Nat → Rat':
                 if not (isinstance(a, ast.Name) and types.get(a.id) == 'Nat → Rat'):
                     self.refuse(s, 'an array argument must be the name of an array')
@@ -1259,7 +1435,7 @@ class ArrayFuncTranslator(FuncTranslator):
                 self.refuse(s, 'the array written by %s must be a non-Final array that is not passed twice' % c.func.id)
             return '%slet σ : St := { σ with %s := %s }\n%s' % (
                 pad, out.id, self.expr(c, types, 'proc'), self.block(rest, types, k_end, k_break, ind, fuel))
-        if isinstance(s, ast.ImportFrom) and self.procedures:
+        if isinstance(s, ast.ImportFrom) and (self.procedures or self.int_arrays):
             return self.block(rest, types, k_end, k_break, ind, fuel)      # `from numpy import pi`: checked in infer_types
         if isinstance(s, ast.Assign) and isinstance(s.targets[0], ast.Tuple):
             # `a, b = e1, e2`: every right-hand side is evaluated in the state before the statement (one structure update)
@@ -1283,6 +1459,30 @@ class ArrayFuncTranslator(FuncTranslator):
             return '%slet σ : St := { σ with %s }\n%s' % (
                 pad, ', '.join('%s := %s' % (v, self.expr(val, types, types[v])) for v, val in zip(names, vals)),
                 self.block(rest, types, k_end, k_break, ind, fuel))
+        if isinstance(s, ast.Assign) and isinstance(s.targets[0], ast.Name) and self.is_empty_call(s.value) \
+                and types.get(s.targets[0].id) == 'Nat → Nat → Rat':
+            # `a = empty((n, m))`: row-major memory with arbitrary contents: element (k, l) is word `k*m + l` of `U`
+            if not self.numpy_empty:
+                self.refuse(s, '`empty` is not numpy.empty here')
+            c = s.value
+            if len(c.args) != 1 or c.keywords or not (isinstance(c.args[0], ast.Tuple) and len(c.args[0].elts) == 2):
+                self.refuse(s, 'empty((n, m)) with one positional argument only')
+            v = s.targets[0].id
+            e0, e1 = (self.expr(x, types, 'Nat') for x in c.args[0].elts)
+            return '%slet σ : St := { σ with %s := fun k_ l_ => U (k_ * %s + l_), %s_len0 := %s, %s_len1 := %s }\n%s' % (
+                pad, v, e1, v, e0, v, e1, self.block(rest, types, k_end, k_break, ind, fuel))
+        if isinstance(s, ast.Assign) and isinstance(s.targets[0], ast.Name) and self.is_empty_like_call(s.value):
+            # `a = empty_like(b)`, b a 1-D float array: a fresh array of the length of b with arbitrary contents
+            c = s.value
+            if not self.numpy_empty_like:
+                self.refuse(s, '`empty_like` is not numpy.empty_like here')
+            if len(c.args) != 1 or c.keywords or not (isinstance(c.args[0], ast.Name) and types.get(c.args[0].id) == 'Nat → Rat'):
+                self.refuse(s, 'empty_like(b) with the name of a 1-D float array only')
+            v = s.targets[0].id
+            return '%slet σ : St := { σ with %s := U, %s_len := σ.%s_len }\n%s' % (
+                pad, v, v, c.args[0].id, self.block(rest, types, k_end, k_break, ind, fuel))
+        if isinstance(s, ast.Assign) and isinstance(s.targets[0], ast.Subscript) and self.slices and self.has_slice(s.targets[0]):
+            return self.slice_assign(s, types, rest, k_end, k_break, ind, fuel)
         if isinstance(s, ast.Assign) and isinstance(s.targets[0], ast.Name) and self.is_empty_call(s.value):
             if not self.numpy_empty:
                 self.refuse(s, '`empty` is not numpy.empty here')
@@ -1319,6 +1519,12 @@ class ArrayFuncTranslator(FuncTranslator):
             return self.block([new] + rest, types, k_end, k_break, ind, fuel)
         if isinstance(s, ast.AugAssign) and not isinstance(s.target, ast.Name):
             self.refuse(s, 'augmented assignment to something that is not a name or an array element')
+        if isinstance(s, ast.If) and self.if_state and self.assign_only(s, is_known):
+            # both branches only assign: the `if` is a function of the state, the statements after it are translated once
+            thn = self.block(s.body, types, 'σ', None, ind + 2, fuel)
+            els = self.block(s.orelse, types, 'σ', None, ind + 2, fuel)
+            return '%slet σ : St :=\n%s  if %s then\n%s\n%s  else\n%s\n%s' % (
+                pad, pad, self.cond(s.test, types), thn, pad, els, self.block(rest, types, k_end, k_break, ind, fuel))
         if isinstance(s, ast.If) and any(
                 isinstance(n, (ast.For, ast.While)) or is_known(n) for t in rest for n in ast.walk(t)):
             # the statements after the `if` start loops or calls: do not copy them into both branches; the `if` yields the state
@@ -1356,7 +1562,7 @@ class ArrayFuncTranslator(FuncTranslator):
             it = s.iter
             if self.is_enumerate(s):
                 if not (len(it.args) == 1 and not it.keywords and isinstance(it.args[0], ast.Name)
-                        and types.get(it.args[0].id) == 'Nat → Rat'):
+                        and types.get(it.args[0].id) in ('Nat → Rat', 'Nat → Int')):
                     self.refuse(s, 'only `for i, v in enumerate(a)` over a 1-D float array')
                 arr, vi, vv = it.args[0].id, s.target.elts[0].id, s.target.elts[1].id
                 for n in ast.walk(s):
@@ -1386,15 +1592,48 @@ class ArrayFuncTranslator(FuncTranslator):
             name = 'loop%d' % (len(self.loops) + 1)
             self.loops.append(None)
             slot = len(self.loops) - 1
-            was_top, self.top = self.top, False
-            body = self.block(s.body, types, '%s U F n (i + 1) σ' % name, '.ok σ', 3, 'F')
-            self.top = was_top
-            self.loops[slot] = (
-                '/-- %s:%d  %s; carried state: all locals -/\n'
-                'def %s (U : Nat → Rat) (F : Nat) : Nat → Nat → St → Res St\n'
-                '  | 0, _, σ => .ok σ\n'
-                '  | n+1, i, σ =>\n'
-                '      let σ : St := { σ with %s }\n%s\n' % (self.fname, s.lineno, doc, name, bind, body))
+            straight = self.if_state and all(
+                isinstance(t, ast.Pass) or (isinstance(t, ast.If) and self.assign_only(t, is_known))
+                or (isinstance(t, (ast.Assign, ast.AugAssign)) and self.assign_only(ast.If(test=None, body=[t], orelse=[]), is_known))
+                for t in s.body)
+            if straight:
+                # a body that only assigns (no loop, no call of a kernel, no break / return / raise) is a function of the state: it is emitted as
+                # `body_of_<loop>`, cut at every `if` into the parts `part<k>_of_<loop>` (the same statements, in the same order)
+                segs = []
+                for t in s.body:
+                    if isinstance(t, ast.Pass):
+                        continue
+                    if isinstance(t, ast.If) or not segs or isinstance(segs[-1][0], ast.If):
+                        segs.append([t])
+                    else:
+                        segs[-1].append(t)
+                was_top, self.top = self.top, False
+                defs, calls = [], []
+                for k, seg in enumerate(segs, 1):
+                    last = max(getattr(n, 'end_lineno', seg[-1].lineno) or seg[-1].lineno for n in ast.walk(seg[-1]) if hasattr(n, 'lineno'))
+                    defs.append('/-- %s:%d-%d  part %d of the body of the loop at line %d -/\ndef part%d_of_%s (σ : St) : St :=\n%s\n' % (
+                        self.fname, seg[0].lineno, last, k, s.lineno, k, name, self.block(seg, types, 'σ', None, 1, 'F')))
+                    calls.append('  let σ : St := part%d_of_%s σ\n' % (k, name))
+                self.top = was_top
+                self.loops[slot] = (
+                    '%s\n/-- %s:%d  one iteration of %s: the parts in the order of the source -/\n'
+                    'def body_of_%s (σ : St) (i : Nat) : St :=\n  let σ : St := { σ with %s }\n%s  σ\n\n'
+                    '/-- %s:%d  %s; carried state: all locals -/\n'
+                    'def %s (U : Nat → Rat) (F : Nat) : Nat → Nat → St → Res St\n'
+                    '  | 0, _, σ => .ok σ\n'
+                    '  | n+1, i, σ => %s U F n (i + 1) (body_of_%s σ i)\n' % (
+                        '\n'.join(defs), self.fname, s.lineno, doc.split(' — ')[0], name, bind, ''.join(calls),
+                        self.fname, s.lineno, doc, name, name, name))
+            else:
+                was_top, self.top = self.top, False
+                body = self.block(s.body, types, '%s U F n (i + 1) σ' % name, '.ok σ', 3, 'F')
+                self.top = was_top
+                self.loops[slot] = (
+                    '/-- %s:%d  %s; carried state: all locals -/\n'
+                    'def %s (U : Nat → Rat) (F : Nat) : Nat → Nat → St → Res St\n'
+                    '  | 0, _, σ => .ok σ\n'
+                    '  | n+1, i, σ =>\n'
+                    '      let σ : St := { σ with %s }\n%s\n' % (self.fname, s.lineno, doc, name, bind, body))
             after = self.block(rest, types, k_end, k_break, ind + 1, fuel)
             return '%smatch %s U F %s %s σ with\n%s| .ok σ =>\n%s\n%s| .done o => %s' % (
                 pad, name, count, start, pad, after, pad, self.wrap('o', paren=False))
@@ -1539,6 +1778,7 @@ def kernel_functions(repo, rel, names, int_type='Nat', pure_imports=(), typevars
             raise Refuse(d, '%s must be a @pure function of floats that returns a float' % nm, mrel)
         externals[nm] = (['Rat'] * len(d.args.args), 'Rat')
     tr = ArrayFuncTranslator(rel, '', int_type=int_type, externals=externals)
+    tr.tree = tree
     for nm in typevars:
         tr.typevars[nm], _ = typevar_real_instance(tree, rel, nm)
     bound = module_bindings(tree, 'empty')          # everything that binds the name `empty` anywhere in the module
@@ -1666,6 +1906,38 @@ def translate_evalvec(repo):
             + '\nend PygyroVerif.Gen.EvalVectorCu\n')
 
 
+SLICE2D_SEMANTICS = (
+    '`a = empty((n, m))` is a local 2-D array with the extents `a_len0 = n`, `a_len1 = m`; its contents are arbitrary: element (k, l) is word `k*m + l` of `U`\n'
+    '(row-major memory).  ONE statement with slices is translated: the whole-array assignment `a[:, :] = b[lo1:hi1, lo2:hi2]`, as numpy defines it for IN-BOUNDS slices\n'
+    '(0 ≤ lo ≤ hi ≤ extent of b; clipping of `hi`, negative bounds and the extents of `b` are NOT modelled, like index bounds elsewhere): the slice has\n'
+    'the extents n_d = hi_d - lo_d; if every n_d is the extent of `a` in that direction or 1 (broadcasting), every element a[k, l] inside the extents of `a`\n'
+    'becomes b[lo1 + k, lo2 + l] (index 0 instead of k / l in a direction that is broadcast) and nothing else changes; otherwise the call raises ValueError.\n'
+    'The default values `der1 = 0`, `der2 = 0` concern callers only: `run` takes every parameter explicitly.\n')
+
+
+def translate_eval2d(repo):
+    """the 2-D scalar kernels `nu_eval_spline_2d_scalar` (spline_eval_funcs.py) and `cu_eval_spline_2d_scalar`
+    (cubic_uniform_spline_eval_funcs.py); the kernels they call are those of EvalSplineGen.lean / BasisFunsGen.lean / CubicUniformGen.lean"""
+    nu = ['nu_basis_funs', 'nu_find_span', 'nu_basis_funs_1st_der', 'nu_eval_spline_2d_scalar']
+    tr, fns, sha_nu = spline_functions(repo, nu)
+    tr.slices = True
+    nu_part = [tr.function(f) for f in fns][-1]        # the first three only register the signatures of the callees
+    cu = ['cu_find_span', 'cu_basis_funs', 'cu_basis_funs_1st_der', 'cu_eval_spline_2d_scalar']
+    tr, fns, sha_cu = kernel_functions(repo, CU_REL, cu, int_type='Int')
+    tr.slices = True
+    cu_part = [tr.function(f) for f in fns][-1]
+    head = ('/-\nGENERATED by harness/translate_pure.py from %s, function %s, and %s, function %s\n'
+            '(calling the kernels of BasisFunsGen.lean, EvalSplineGen.lean and CubicUniformGen.lean; sha256 of the sources of the functions and their\n'
+            'callees %s / %s) — do not edit.\n%s%s%s%s-/\n'
+            'import PygyroVerif.Generated.EvalSplineGen\nimport PygyroVerif.Generated.CubicUniformGen\n\n'
+            'set_option linter.unusedVariables false\n'
+            % (SPLINE_REL, nu[-1], CU_REL, cu[-1], sha_nu, sha_cu, SPLINE_SEMANTICS, ARRAY_SEMANTICS_ND,
+               INT_SEMANTICS.replace('In this file', 'In the namespace Eval2DCu'), SLICE2D_SEMANTICS))
+    return (head + 'namespace PygyroVerif.Gen.Eval2DNu\nopen PygyroVerif.Gen.BasisFuns PygyroVerif.Gen.EvalSpline\n\n' + nu_part
+            + '\nend PygyroVerif.Gen.Eval2DNu\n\nnamespace PygyroVerif.Gen.Eval2DCu\nopen PygyroVerif.Gen.CubicUniform\n\n' + cu_part
+            + '\nend PygyroVerif.Gen.Eval2DCu\n')
+
+
 EXT_SEMANTICS = (
     '`for i, v in enumerate(a)` over a 1-D float array makes `len(a)` iterations (evaluated once) and reads `v = a[i]` at the start of each one (the body\n'
     'does not write `a`).  Calls of `f_eq` (a `@pure` function of floats imported from another module) and of the function parameter\n'
@@ -1706,12 +1978,64 @@ def translate_polexpl(repo):
     return head + body + '\nend PygyroVerif.Gen.PolExpl\n'
 
 
+POLIMPL_SEMANTICS = (
+    '`from numpy import pi, abs` in the body: `pi` is a leading parameter of `run`; `abs(x)` of a float is `pyAbs x = if x < 0 then -x else x`.\n'
+    'An `if` whose branches only assign (names, array elements, nested such `if`s) is translated as a FUNCTION OF THE STATE, `let σ := if c then … else …`:\n'
+    'the statements after it are translated once (they are not copied into the branches); other `if`s (those containing loops) as before.\n'
+    'A `for` whose body only assigns (no inner loop, no call of a kernel, no break / return / raise) applies the state function `body_of_<loop>` once per iteration;\n'
+    'that function is the composition, in the order of the source, of `part<k>_of_<loop>`: the body cut at every `if` (the same statements; nothing else changes).\n'
+    '`while (norm > tol):` is a fuel-recursive function (`F` = number of TESTS of the condition allowed: a run that makes N sweeps needs F ≥ N + 1; out of\n'
+    'fuel = the model artefact `.outOfFuel`).  `multFactor *= 0.5` multiplies by the exact rational 1/2.\n')
+PYABS_DEF = ('/-- `abs(x)` on a float -/\n'
+             'def pyAbs (x : Rat) : Rat := if x < 0 then -x else x\n\n')
+
+
+def translate_polimpl(repo):
+    """pygyro/advection/accelerated_advection_steps.py: `general_poloidal_advection_step_impl` (implicit trapezoidal rule: fixed-point sweeps over the
+    (theta, r) nodes until the largest displacement between two sweeps is at most `tol`, then the value at the converged feet)"""
+    tr, fns, sha = kernel_functions(repo, ADV_REL, ['general_poloidal_advection_step_impl'], pure_imports=('f_eq',))
+    tr.procedures = tr.if_state = True
+    body = tr.function(fns[0])
+    head = ('/-\nGENERATED by harness/translate_pure.py from %s, function general_poloidal_advection_step_impl\n(sha256 of its source %s) — do not edit.\n%s%s%s%s-/\n'
+            'set_option linter.unusedVariables false\nnamespace PygyroVerif.Gen.PolImpl\n\n%s%s%s'
+            % (ADV_REL, sha, SPLINE_SEMANTICS, ARRAY_SEMANTICS_ND, POLEXPL_SEMANTICS, POLIMPL_SEMANTICS, SPLINE_TYPES, PYMOD_DEF, PYABS_DEF))
+    return head + body + '\nend PygyroVerif.Gen.PolImpl\n'
+
+
+LAGVALS_SEMANTICS = (
+    '`shifts: int[:]` is a read-only array of integers `Nat → Int` (length `shifts_len`); `for j, s in enumerate(shifts)` makes `len(shifts)` iterations with\n'
+    '`s = shifts[j]` an `Int`.  `idx = (i - s) %% nz`: the difference is an `Int`, the modulus `nz = vals.shape[0]` a natural number, and `%%` is Lean\'s `%%` on\n'
+    '`Int` (`Int.emod`, the NON-NEGATIVE remainder), which is Python\'s value for nz > 0 (nz = 0 raises ZeroDivisionError in Python and gives `i - s` here; the\n'
+    'theorems state 0 < nz); as an index it is `Int.toNat`.  `from numpy import pi, empty_like` in the body: `pi` is a leading parameter of `run` (an arbitrary\n'
+    'rational), `new_q = empty_like(qVals)` a fresh 1-D array of the length of `qVals` with arbitrary contents `U`.  ONE statement with a slice is translated:\n'
+    '`new_q[:] = (qVals + thetaShifts[j]) %% (2*pi)` — numpy evaluates the right-hand side into a temporary (everything on the right is read in the state before\n'
+    'the statement), checks the shapes (len(qVals) = len(new_q), or len(qVals) = 1: broadcasting; ValueError otherwise) and copies: this is the element-wise\n'
+    'loop `for k in range(len(new_q)): new_q[k] = (qVals[k] + thetaShifts[j]) %% (2*pi)`, given in closed form (entries beyond the length are not touched).\n'
+    'The function parameter `eval_spline_1d_scalar` (float result, every array argument `Final`) is an UNINTERPRETED total function of its arguments.  The function\n'
+    'parameter(s) %s: never mentioned in the body (only in a comment), NOT translated — no field, no parameter of `run`.\n'
+    '`a %% b` on floats is `pyMod a b = a - b*floor(a/b)` (Python: the result has the sign of the divisor; this is the value for every b ≠ 0, computed exactly;\n'
+    'the kernel only uses b = 2*pi; b = 0 raises in Python and gives `a` here).  Distinct array parameters are distinct arrays (no aliasing).\n')
+
+
+def translate_lagvals(repo):
+    """pygyro/advection/accelerated_advection_steps.py: `general_get_lagrange_vals` (the table of spline values on the shifted theta points that
+    `flux_advection` contracts with the Lagrange coefficients)"""
+    tr, fns, sha = kernel_functions(repo, ADV_REL, ['general_get_lagrange_vals'])
+    tr.procedures = tr.slices = tr.int_arrays = True
+    body = tr.function(fns[0])
+    unused = ', '.join('`%s`' % u for u in tr.unused_params) or '(none)'
+    head = ('/-\nGENERATED by harness/translate_pure.py from %s, function general_get_lagrange_vals\n(sha256 of its source %s) — do not edit.\n%s%s%s-/\n'
+            'set_option linter.unusedVariables false\nnamespace PygyroVerif.Gen.LagVals\n\n%s%s'
+            % (ADV_REL, sha, SPLINE_SEMANTICS, ARRAY_SEMANTICS_ND, LAGVALS_SEMANTICS % unused, SPLINE_TYPES, PYMOD_DEF))
+    return head + body + '\nend PygyroVerif.Gen.LagVals\n'
+
+
 def main():
     ap = argparse.ArgumentParser()
     ap.add_argument('--repo', default=os.environ.get('PYGYRO_REPO', '/repo'))
     ap.add_argument('--out', default=DEFAULT_OUT)
     ap.add_argument('--quiet', action='store_true')
-    ap.add_argument('--only', choices=['procgrid', 'blocks', 'grid', 'findspan', 'basisfuns', 'eval1d', 'flux', 'cueval', 'vpar', 'density', 'evalvec', 'polexpl'], help='translate one target only')
+    ap.add_argument('--only', choices=['procgrid', 'blocks', 'grid', 'findspan', 'basisfuns', 'eval1d', 'flux', 'cueval', 'vpar', 'density', 'evalvec', 'polexpl', 'eval2d', 'lagvals', 'polimpl'], help='translate one target only')
     a = ap.parse_args()
     os.makedirs(a.out, exist_ok=True)
     status = 0
@@ -1726,7 +2050,10 @@ def main():
                            ('vpar', 'VParGen.lean', lambda: translate_vpar(a.repo)),
                            ('density', 'DensityGen.lean', lambda: translate_density(a.repo)),
                            ('evalvec', 'EvalVectorGen.lean', lambda: translate_evalvec(a.repo)),
-                           ('polexpl', 'PolExplGen.lean', lambda: translate_polexpl(a.repo))):
+                           ('polexpl', 'PolExplGen.lean', lambda: translate_polexpl(a.repo)),
+                           ('eval2d', 'Eval2DGen.lean', lambda: translate_eval2d(a.repo)),
+                           ('lagvals', 'LagValsGen.lean', lambda: translate_lagvals(a.repo)),
+                           ('polimpl', 'PolImplGen.lean', lambda: translate_polimpl(a.repo))):
         if a.only and a.only != key:
             continue
         path = os.path.join(a.out, fname)
